@@ -235,6 +235,14 @@ def body():
                 off0, ln0 = reg["enckey"][0]
                 fol(key + ":open:enckey-holds-%d-bytes" % klen, dict(base, op=dop, cms=hx(replace_value(cms, off0, ln0, big)), rkey=hx(W.d[r0]), rcert=hx(W.cert[r0]), prov="raw"),
                     dict(rightkey=True, tampered=True, nsi=len(m["S"]), expect=expect))
+            # the C3 hash inside the first recipient's encryptedKey (an SM2 ciphertext) changed in ways that cancel in a sloppy comparison
+            if not m.get("light"):
+                off0, ln0 = reg["enckey"][0]; ek = cms[off0:off0 + ln0]; i3 = ek.find(b"\x04\x20")
+                if i3 > 0:
+                    r0 = m["R"][0]
+                    for nm, tx in CL.cancelling(ek[i3 + 2:i3 + 34]):
+                        x = cms[:off0 + i3 + 2] + tx + cms[off0 + i3 + 34:]
+                        fol(key + ":open:enckey-c3:%s" % nm, dict(base, op=dop, cms=hx(x), rkey=hx(W.d[r0]), rcert=hx(W.cert[r0]), prov="raw"), dict(rightkey=True, tampered=True, nsi=len(m["S"]), expect=expect))
             if op == "sign_and_envelop":
                 fol(key + ":open:zero-signer-infos", dict(base, op=dop, cms=hx(without_signer_infos(cms)), rkey=hx(W.d[m["R"][0]]), rcert=hx(W.cert[m["R"][0]]), prov="raw"), dict(rightkey=True, tampered=False, nsi=0, expect=expect))
         if m.get("wrongkey") or m.get("light"):
